@@ -622,3 +622,154 @@ def grlex_shape(facts, b, r):
         if r[1].endswith('cmp::Ord::cmp') or r[1].endswith('>::cmp'):
             return 'single exponent'
     return 'other: ' + sk(r0)[:80]
+
+
+def check_divisibility(facts, rep):
+    """F10: the c-divisibility d of the canonical class (C06, "ss = 2d + w - r + 1"). div(a, c) is None for a = 0 and
+    otherwise the number of exact divisions by c (counter from 0, +1 per division, test `(a % c).is_zero()`); div_vec is the
+    *minimum* over the non-zero coordinates; compute_div applies it to the free coordinates 0..r (r = 1 reduced, 2 unreduced)
+    of the class in H^0, requires all classes to agree and returns that value."""
+    D = 'yui_kh::misc::div'
+    DV = 'yui_kh::misc::div_vec'
+    CD = 'yui_kh::kh::ss::compute_div'
+    need = [facts.bodies.get(x) for x in (D, DV, CD)]
+    if any(x is None for x in need):
+        rep.indet('E8.F10: div / div_vec / compute_div not found')
+        return
+    for b in need:
+        rep.saw(b)
+    probs = []
+    # D1
+    rets = set()
+    for p in SymEx(need[0], max_paths=2000).run():
+        if p.end != 'return':
+            continue
+        rets.add((sk(p.ret), tuple((sk(e.term), e.value != 0) for e in p.branches() if 'Overflow' not in sk(e.term))))
+    want0 = ('Option::None{}', (('is_zero(arg1)', True),))
+    want1 = ('Option::Some{0: 0}', (('is_zero(arg1)', False), ('is_zero(&rem(&clone(arg1), arg2))', False)))
+    if want0 not in rets:
+        probs.append('div(0, c) is not None')
+    if want1 not in rets:
+        probs.append('div(a, c) with c not dividing a is not Some(0): %s' % sorted(r for r in rets if r[0].startswith('Option::Some'))[:1])
+    step = set()
+    for p in SymEx(need[0], havoc_loops=True, max_paths=2000).run():
+        if p.end == 'backedge':
+            conds = [(re.sub(r'loop\d+_\d+', 'L', sk(e.term)), e.value != 0) for e in p.branches()]
+            incr = [c for c in conds if c[0].startswith('AddWithOverflow(L, 1)')]
+            divs = [tuple(re.sub(r'&mut _\d+', 'A', sk(a)) for a in e.args) for e in p.calls() if e.name.split('::')[-1] == 'div_assign']
+            step.add((('is_zero(&rem(&L, arg2))', True) in conds, bool(incr), tuple(divs)))
+    if step != {(True, True, (('A', 'arg2'),))}:
+        probs.append('the loop of div is not `while (a %% c).is_zero() { a /= c; k += 1 }` (%s)' % sorted(step, key=str))
+    inst = 'misc::div|number of exact divisions by c, None for 0'
+    if probs:
+        rep.violation('E8.F10-divisibility', inst, '; '.join(probs), where=need[0].where())
+    else:
+        rep.ok('E8.F10-divisibility', inst, 'None | Some(0) | +1 per exact division')
+    # D2
+    r = [sk(p.ret) for p in SymEx(need[1]).run() if p.end == 'return']
+    clo = None
+    for k, b in facts.bodies.items():
+        if k == DV + '::{closure#0}':
+            clo = [re.sub(r'\^_ref__', '^', sk(p.ret)) for p in SymEx(b).run() if p.end == 'return']
+    inst = 'misc::div_vec|minimum over the non-zero coordinates'
+    if r == ['min(filter_map(iter(arg1), closure<{closure#0}>))'] and clo == ['div(arg2.1, *arg1.^c)']:
+        rep.ok('E8.F10-divisibility', inst, 'min(filter_map(div))')
+    elif len(r) == 1 and re.match(r'(max|last|next|sum)\(filter_map\(iter\(arg1\), closure<\{closure#0\}>\)\)$', r[0]):
+        rep.violation('E8.F10-divisibility', inst, 'div_vec takes %s instead of the minimum: a class is divisible by c^k only if *every* coordinate is' % r[0].split('(')[0], where=need[1].where())
+    else:
+        rep.indet('E8.F10: div_vec outside the recognised fragment: %s / %s' % (r, clo))
+    # D3
+    got = None
+    for k, b in facts.bodies.items():
+        if k.startswith(CD + '::{closure'):
+            for p in SymEx(b).run():
+                if p.end == 'return' and 'div_vec(' in sk(p.ret):
+                    got = re.sub(r'\^_ref__', '^', re.sub(r'#\d+\.\d+', '', show(p.ret, -1000)))
+    rv = set()
+    rr = set()
+    for p in SymEx(need[2], max_paths=20000).run():
+        if p.end == 'return':
+            rr.add(sk(p.ret)[-4:])
+            red = next((e.value != 0 for e in p.branches() if sk(e.term) == 'arg3'), None)
+            ranks = [sk(e.term) for e in p.branches() if sk(e.term).startswith('Eq(rank(')]
+            rk = None
+            for t in ranks:
+                m = re.search(r', (\d+)\)$', t)
+                if m:
+                    rk = int(m.group(1))
+            eqs = [e for e in p.branches() if sk(e.term).startswith('all_equal(')]
+            rv.add((red, rk, bool(eqs) and all(e.value != 0 for e in eqs)))
+    inst = 'ss::compute_div|div_vec of the free coordinates 0..r of each class, all equal'
+    okc = got == 'expect(div_vec(&subvec(&arg2, Range::Range{start: 0, end: **arg1.^r}), *arg1.^c), "invalid divisibility.")' and rv == {(True, 1, True), (False, 2, True)} and rr == {', 0)'}
+    if okc:
+        rep.ok('E8.F10-divisibility', inst, 'subvec(0..r), all_equal, ds[0]')
+    else:
+        rep.indet('E8.F10: compute_div outside the recognised fragment: %s / %s / %s' % (got, sorted(rv, key=str), rr))
+
+
+def check_koszul_sign(facts, rep):
+    """F11: the differential of the tensor product D(left, right) built by TngComplex::connect_edges is
+    d(v (x) w) = dv (x) w + (-1)^{deg v} v (x) dw: the two edge families have source k0 + l0 and targets k1 + l0 resp. k0 + l1,
+    each edge is glued to the identity of the *other* factor's tangle, and the sign is applied to exactly one family with
+    an exponent that is the homological degree (weight - shift) of the factor that is *not* differentiated (otherwise
+    the two families commute instead of anticommuting and d.d != 0 from the second crossing on)."""
+    root = 'yui_kh::kh::internal::v2::tng_complex::TngComplex::<R>::connect_edges'
+    outer = facts.bodies.get(root + '::{closure#0}')
+    if outer is None:
+        rep.indet('E8.F11: connect_edges closure not found')
+        return
+    rep.saw(outer)
+
+    def dk(t):
+        return re.sub(r'\^_ref__', '^', re.sub(r'#\d+\.\d+', '', show(t, -1000))).replace('&', '').replace('*', '')
+    fam = {}
+    for k, b in facts.bodies.items():
+        if k.startswith(root + '::{closure#0}::{closure#') and k.count('{closure') == 2:
+            for p in SymEx(b).run():
+                if p.end == 'return' and p.ret and p.ret[0] == 'tuple' and len(p.ret[1]) == 3:
+                    fam[k] = [dk(x) for x in p.ret[1]]
+    # i0: degree of the left factor
+    i0 = None
+    for p in SymEx(outer, max_paths=5000).run():
+        for e in p.branches():
+            s = dk(e.term)
+            m = re.match(r'SubWithOverflow\(\(weight\(arg2\.(\d)\.state\) as isize\), arg1\.\^(left|right)\.deg_shift\.0\)\.1$', s)
+            if m:
+                i0 = (m.group(1), m.group(2))
+    inst = 'TngComplex::connect_edges|d(v x w) = dv x w + (-1)^{deg v} v x dw'
+    if len(fam) != 2 or i0 is None:
+        rep.indet('E8.F11: edge families of connect_edges outside the recognised fragment: %s, i0 = %s' % (fam, i0))
+        return
+    left = right = None
+    for k, (src, tgt, val) in fam.items():
+        m = re.match(r'part_eval\((mul\()?connected\(edge\(arg1\.\^(left|right), arg1\.\^(k0|l0), arg2\), id\(tng\(arg1\.\^(v0|w0)\)\)\)(, from_sign\(from_parity\(\(arg1\.\^i0 as i64\)\)\)\))?, arg1\.\^h, arg1\.\^t\)$', val)
+        if not m:
+            rep.indet('E8.F11: edge value %s' % val[:160])
+            return
+        rec = {'src': src, 'tgt': tgt, 'side': m.group(2), 'from': m.group(3), 'id_of': m.group(4), 'signed': bool(m.group(1))}
+        if rec['side'] == 'left':
+            left = rec
+        else:
+            right = rec
+    probs = []
+    if not left or not right:
+        probs.append('the two families do not differentiate one factor each')
+    else:
+        if (left['src'], left['tgt'], left['from'], left['id_of']) != ('arg1.^k0_l0', 'add(arg2, arg1.^l0)', 'k0', 'w0'):
+            probs.append('left family is %s' % left)
+        if (right['src'], right['tgt'], right['from'], right['id_of']) != ('arg1.^k0_l0', 'add(arg1.^k0, arg2)', 'l0', 'v0'):
+            probs.append('right family is %s' % right)
+        signed = [r['side'] for r in (left, right) if r['signed']]
+        if len(signed) != 1:
+            probs.append('the sign is applied to %d of the two families (must be exactly one)' % len(signed))
+        else:
+            # exponent = degree of the factor that is NOT differentiated
+            deg_of = {'0': 'left', '1': 'right'}[i0[0]]
+            if i0[1] != deg_of:
+                probs.append('the exponent mixes the weight of the %s key with the shift of the %s complex' % (deg_of, i0[1]))
+            if deg_of == signed[0]:
+                probs.append('the family differentiating the %s factor carries (-1)^{deg of the %s factor}: the two families commute, d.d != 0' % (signed[0], deg_of))
+    if probs:
+        rep.violation('E8.F11-koszul-sign', inst, 'TngComplex::connect_edges: ' + '; '.join(probs), where=outer.where())
+    else:
+        rep.ok('E8.F11-koszul-sign', inst, 'sign (-1)^{weight(k0) - shift(left)} on the family differentiating the right factor')
